@@ -228,7 +228,8 @@ def Hasher.update (sd : Nat) (h : Hasher) (input : List UInt8) : Option Hasher :
       | some c => decide (c ≤ mx ∧ input.length ≤ mx - c)
   if ok then some (h.updateOk K sd input) else none
 
-/-- `final_output` -/
+/-- `final_output`: the loop `while num_cvs_remaining > 0` takes the stack entries from index
+`num_cvs_remaining - 1` down to 0, i.e. it is a right fold over the first `rem` entries -/
 def Hasher.finalOutput (h : Hasher) : Node :=
   if h.stack.isEmpty then h.cs.output
   else
@@ -236,8 +237,7 @@ def Hasher.finalOutput (h : Hasher) : Node :=
     let (out, rem) : Node × Nat :=
       if 0 < h.cs.count then (h.cs.output, n)
       else (parentOutput h.key h.cs.flags (h.stack.getD (n - 2) h.key) (h.stack.getD (n - 1) h.key), n - 2)
-    (List.range rem).foldl
-      (fun out i => parentOutput h.key h.cs.flags (h.stack.getD (rem - 1 - i) h.key) (chain K out)) out
+    (h.stack.take rem).foldr (fun cv out => parentOutput h.key h.cs.flags cv (chain K out)) out
 
 /-- `Hasher::reset` -/
 def Hasher.reset (h : Hasher) : Hasher :=
